@@ -12,6 +12,33 @@ os.environ.setdefault('PYRTL_VERIF', '1')          # hooks on for every check
 sys.path.insert(0, os.environ.get('PYRTL_REPO', '/repo'))   # the working tree, not an installed copy
 
 
+class _Filter(object):
+    """stdout filter: PyRTL passes print progress notes ('... deemed useless by optimization');
+    only the lines of the check protocol go through."""
+    def __init__(self, out):
+        self.out = out
+        self.buf = ''
+
+    def write(self, t):
+        self.buf += t
+        while '\n' in self.buf:
+            line, self.buf = self.buf.split('\n', 1)
+            if line.startswith(('VIOLATION ', 'KNOWN-FINDING', 'OK ', 'FAIL ')) or line.startswith('"'):
+                self.out.write(line + '\n')
+
+    def flush(self):
+        self.out.flush()
+
+
+def run_quiet(fn, ctx):
+    real = sys.stdout
+    sys.stdout = _Filter(real)
+    try:
+        return fn(ctx)
+    finally:
+        sys.stdout = real
+
+
 def main():
     ap = argparse.ArgumentParser()
     ap.add_argument('prop')
@@ -22,7 +49,7 @@ def main():
     mod = importlib.import_module('checks.' + a.prop.lower())
     ctx = Ctx(a.prop, a.tier, replay=a.replay)
     try:
-        rc = mod.main(ctx)
+        rc = run_quiet(mod.main, ctx)
     except SystemExit:
         raise
     except BaseException:   # an internal error of the machinery is not a violation: exit 2
